@@ -31,7 +31,8 @@ MALFORMED = ['=(1', '=', '=*1', '=1+', '=+', '=()', '=SUM(', '=SUM()', '=SUM(1,)
              '=IF(A1>3;"the total exceeds the configured limit for this period', '=CONCATENATE(A1;" units in stock, reorder level is ;A1;A1)',
              '=A1&"' + 'x' * 40, '="a"&"b"&"' + 'tail without a closing quote ' * 2,
              '=IF(,,)', '=SUM(A1:A2:A3)', '=--', '=1--', '=MATCH(1)', '=XMATCH(1)', '=SEARCH("a")', '=TEXT(1)', '=VALUE()', '=CONCATENATE()', '=YEAR()', '=COUNTIFS(A1:A2)']
-REFS = ['=SUMIF(D1:A1,">1",A2)', '=SUMIF(C1:A1,">0",B2)', '=SUMIF(B3:A3,"y",A2)', '=SUMIF(C:A,">0",A:A)', '=SUM(B2:A1)', '=SUMIFS(B2:A1,B2:A1,">0")', '=VLOOKUP(1,B2:A1,1,0)', '=COUNTBLANK(B2:A1)', '=Nope!A1', "='No such'!B2", '=A0', '=AAAA1', '=A1048577', '=XFE1', '=ZZZ99999', '=Other!ZZ9', '=A0:B2', '=A1:B0', '=SUM(A0:A2)', '=A:A', '=A:B', '=1:1', '=Other!A:A',
+REFS = ['=SUMIF(D6:A6,">1",A7)', '=SUMIF(C6:A6,">0",B7)', '=SUMIF(B8:A8,"y",A7)', '=SUMIF(B:A,">0",A:A)', '=SUM(B2:A1)', '=SUMIFS(B2:A1,B2:A1,">0")', '=VLOOKUP(1,B2:A1,1,0)', '=COUNTBLANK(B2:A1)',
+        '=SUMIF(Other!D6:B6,">0",Other!A7)', '=Nope!A1', "='No such'!B2", '=A0', '=AAAA1', '=A1048577', '=XFE1', '=ZZZ99999', '=Other!ZZ9', '=A0:B2', '=A1:B0', '=SUM(A0:A2)', '=A:A', '=A:B', '=1:1', '=Other!A:A',
         '=C3', '=C4', '=SUM(C3:C4)']                  # C3/C4 are written as a cycle when this family is chosen
 SOUP = ['1', 'A1', '+', '-', '*', '/', '&', '<', '>=', '<>', '=', '%', '(', ')', ',', ';', '"x"', 'SUM(', 'IF(', 'TRUE', 'A1:B2', ':', '!', '$', '.', 'e', ' ']
 TEXTS = ['plain', "it's", 'say "hi"', 'a\\b', 'line1\nline2', '{name}', 'total: {0}', 'a}b', '{{x}}', '{titles}', '%s %d', '#comment', 'tab\there', 'éü中', "'''", '"""', '\\', '']
@@ -86,8 +87,9 @@ def gen_recipe(rng, family=None):
             probe = v[:rng.randint(1, len(v) - 1)]
     elif family == 'refs':
         probe = rng.choice(REFS)
-        cells['C3'] = '=C4+1'
-        cells['C4'] = '=C3*2'
+        if 'C3' in probe or 'C4' in probe:
+            cells['C3'] = '=C4+1'
+            cells['C4'] = '=C3*2'
     elif family == 'soup':
         probe = '=' + ''.join(rng.choice(SOUP) for _ in range(rng.randint(1, 7)))
     elif family == 'consts':
@@ -258,7 +260,7 @@ def corpus():
             rc = gen_recipe(rng, fam)
             rc['cells']['C1'] = f
             rc['probe'] = f
-            if fam == 'refs':
+            if fam == 'refs' and ('C3' in f or 'C4' in f):        # the cycle only where the probe refers to it: it ends the whole translation
                 rc['cells']['C3'] = '=C4+1'
                 rc['cells']['C4'] = '=C3*2'
             rs.append(rc)
